@@ -222,13 +222,14 @@ func runC16(c *Ctx) {
 				}
 				// the body stores names[<expr>]: the expr must be the guarded one
 				for _, st := range ifs.Body.List {
-					as, ok := st.(*ast.AssignStmt)
+					// names[k] = …, or names.add(k) through a method that stores its parameter as the key
+					key, ok := nameSetKey(c, info, st)
 					if !ok {
 						continue
 					}
-					if ix, ok := as.Lhs[0].(*ast.IndexExpr); ok && isField(info, ix.Index, pSchema, "Schema", "Name") {
-						got := types.ExprString(ix.Index)
-						c.Check("R16c", "CheckChangesScope|guard "+guarded[0]+" records "+got, ix.Pos(), got == guarded[0], "under the guard on %s the scope check records %s: an object of another schema is attributed to the wrong schema and multi-schema change sets are not rejected", guarded[0], got)
+					if isField(info, key, pSchema, "Schema", "Name") {
+						got := types.ExprString(key)
+						c.Check("R16c", "CheckChangesScope|guard "+guarded[0]+" records "+got, key.Pos(), got == guarded[0], "under the guard on %s the scope check records %s: an object of another schema is attributed to the wrong schema and multi-schema change sets are not rejected", guarded[0], got)
 					}
 				}
 				return true
